@@ -59,6 +59,142 @@ void harness(void) {
 }
 '''
 
+# K5: error position attribution.  Multi-line programs whose (error "En") forms each sit on their own line; which one is
+# raised depends on the inputs.  (name, body lines, C expression giving the index of the raised marker, 0 = none)
+ERR_TEMPLATES = [
+    ("two_sites", ['(do',
+                   '  (if (< a b)',
+                   '    (error "E1")',
+                   '    (+ a 1))',
+                   '  (if (< b c)',
+                   '      (error "E2")',
+                   '    (+ b 1)))'],
+     "(a < b) ? 1 : ((b < c) ? 2 : 0)"),
+    ("while_closure", ['(do',
+                       '  (var lastf nil)',
+                       '  (var i 0)',
+                       '  (while (< i 1)',
+                       '    (if (= i a)',
+                       '       (error "E1"))',
+                       '    (set lastf (fn [] i))',
+                       '    (++ i))',
+                       '  (if (< b c)',
+                       '    (error "E2")',
+                       '    i))'],
+     "(a == 0.0) ? 1 : ((b < c) ? 2 : 0)"),
+    ("plain_while", ['(do',
+                     '  (var i 0)',
+                     '  (while (< i 3)',
+                     '    (if (= i a)',
+                     '         (error "E1"))',
+                     '    (++ i))',
+                     '  (if (< b c) i',
+                     '    (error "E2")))'],
+     "(a == 0.0 || a == 1.0 || a == 2.0) ? 1 : ((b < c) ? 0 : 2)"),
+]
+ERR_CONTEXTS = [
+    ("top", ["(fn [a b c]", "%s)"]),
+    ("nontail", ["(fn [a b c] (def r", "%s", ") r)"]),
+    ("loop", ["(fn [a b c]", "  (var r nil) (for kk 0 1 (set r", "%s", "  )) r)"]),
+    ("nested", ["(fn [a b c] (def r ((fn []", "   %s", "   ))) r)"]),
+    ("while_body", ["(fn [a b c] (var r nil) (var go true) (var keep nil)", " (while go (set go false) (set keep (fn [] go)) (set r", "%s", " )) r)"]),
+]
+
+ERR_TEMPLATE = r"""/* VF
+%(hdr)s
+VF */
+#include <janet.h>
+#include "%(gen)s"
+#include "vf_vm.h"
+static const uint32_t *vf_last_pc; static JanetFunction *vf_last_func;
+void vf_dispatch_hook(const uint32_t *pc, JanetFunction *func) { vf_last_pc = pc; vf_last_func = func; }
+static const int vf_exp_line[%(nctx)d][3] = %(lines)s;
+static const int vf_exp_col[%(nctx)d][3] = %(cols)s;
+void harness(void) {
+    vf_vm_init();
+    vf_gen_init();
+    Janet argv[3];
+    double a = vf_num(), b = vf_num(), c = vf_num();
+    argv[0] = janet_wrap_number(a); argv[1] = janet_wrap_number(b); argv[2] = janet_wrap_number(c);
+    int want = %(ref)s;                      /* which marker the evaluation rules say is raised (0: none) */
+    JanetFiber *fiber = janet_fiber(vf_funcs[VF_CTX], 64, 3, argv);
+    VF_ASSERT(fiber != NULL, "fiber");
+    Janet out = janet_wrap_nil();
+    JanetSignal sig = janet_continue(fiber, janet_wrap_nil(), &out);
+    if (want == 0) {
+        VF_ASSERT(sig == JANET_SIGNAL_OK, "an error was raised where the program raises none");
+        VF_WITNESS("no error");
+    } else {
+        VF_ASSERT(sig == JANET_SIGNAL_ERROR, "the error the program must raise was not raised");
+        VF_ASSERT(janet_checktype(out, JANET_STRING) && janet_string_length(janet_unwrap_string(out)) == 2 && janet_unwrap_string(out)[1] == '0' + want, "another error value than the form's");
+        /* what janet_stacktrace / debug/stack report is the source mapping of the pc of the innermost frame; the frame is an
+         * overlay on the value stack that CBMC cannot read back (E23), so the pc and function of the LAST DISPATCHED
+         * instruction are taken from the interpreter's own locals through hook H3 (JOP_ERROR commits exactly that pc) */
+        VF_ASSERT(vf_last_func != NULL && vf_last_func->def->sourcemap != NULL, "no source map");
+        JanetFuncDef *def = vf_last_func->def;
+        int32_t off = (int32_t)(vf_last_pc - def->bytecode);
+        VF_ASSERT((*vf_last_pc & 0x7F) == JOP_ERROR, "the last dispatched instruction is not the error instruction");
+        VF_ASSERT(off >= 0 && off < def->bytecode_length, "committed pc outside the function");
+        VF_ASSERT(def->sourcemap[off].line == vf_exp_line[VF_CTX][want], "error attributed to another source line than the form that raised it");
+        VF_ASSERT(def->sourcemap[off].column == vf_exp_col[VF_CTX][want], "error attributed to another source column than the form that raised it");
+        VF_WITNESS("error position checked");
+    }
+}
+"""
+
+def prepare_err(tier, vf, gendir, hdir, harnesses, info):
+    for name, body, ref in ERR_TEMPLATES:
+        text_lines, starts = ["["], []
+        for cname, ctx in ERR_CONTEXTS:
+            for l in ctx:
+                if "%s" in l:
+                    ind = l.index("%s")
+                    text_lines.append(l[:ind] + body[0])
+                    for bl in body[1:-1]:
+                        text_lines.append(" " * ind + bl)
+                    text_lines.append(" " * ind + body[-1] + l[ind + 2:])
+                else:
+                    text_lines.append(l)
+            starts.append(len(text_lines))
+        text_lines.append("]")
+        # positions of the markers per context (1-based line and column of the opening parenthesis)
+        lines, cols, prev = [], [], 0
+        for end in starts:
+            ln, co = [0, 0, 0], [0, 0, 0]
+            for k in (1, 2):
+                for li in range(prev, end):
+                    j = text_lines[li].find('(error "E%d")' % k)
+                    if j >= 0:
+                        ln[k], co[k] = li + 1, j + 1
+            lines.append(ln); cols.append(co); prev = end
+        src = "\n".join(text_lines) + "\n"
+        gen = os.path.join(gendir, "err_" + name + ".h")
+        try:
+            vf.fdump(src, gen)
+        except vf.BuildError as ex:
+            info["skipped"].append("err_%s: %s" % (name, str(ex)[:300]))
+            continue
+        carr = lambda rows: "{" + ", ".join("{%d, %d, %d}" % tuple(r) for r in rows) + "}"
+        hdr = {
+            "defines": ["-DJANET_NO_NANBOX"],
+            "units": ["vm.c", "fiber.c", "value.c", "wrap.c", "state.c", "util.c", "tuple.c", "array.c"],
+            "unit_defines": {"vm.c": ["-DJANET_VERIF_DISPATCH_HOOK(op)=vf_dispatch_hook(pc, func)"]},
+            "remove_bodies": ["safe_memcpy", "janet_binop_call", "janet_mcall", "janet_getmethod", "janet_sandbox", "janet_sandbox_assert", "janet_init", "janet_deinit"],
+            "cbmc": ["--no-built-in-assertions", "--paths", "lifo"],
+            "no_body_deny_re": "^(janet_(fiber|continue|call|in|get|put|next|length|binop|mcall|tuple|array|struct|table)|run_vm)",
+            "backend": "cadical", "unwind": 24, "unwind_functions": {"run_vm": 400, "memcpy": 600, "memmove": 600, "janet_fiber_funcframe": 300, "janet_fiber_funcframe_tail": 300}, "timeout": 400, "mem_gb": 4,
+            "cases": [{"name": ERR_CONTEXTS[i][0], "D": ["-DVF_CTX=%d" % i], "tier": "quick" if (ERR_CONTEXTS[i][0] in ("top", "nontail") and name != "while_closure") or (ERR_CONTEXTS[i][0] == "while_body" and name == "two_sites") or (ERR_CONTEXTS[i][0] == "top" and name == "while_closure") else "thorough", "timeout": 500, "timeout_thorough": 1500} for i in range(len(ERR_CONTEXTS))],
+            "functions_encoded": ["vm.c: run_vm (JOP_ERROR, vm_commit), janet_continue*", "fiber.c: frames", "compile.c (source mapping: mapbuffer, janetc_pop_funcdef), specials.c (while: loop-to-function rewrite), emit.c, bytecode.c (no-op removal rewrites the map) of the current tree run concretely to produce each function with its source map (fdump)"],
+            "asserted": ["K5: for ALL number inputs a b c, the program raises exactly the error its evaluation rules prescribe (or none), and the source line and column recorded for the pc of the error instruction in the innermost function - what janet_stacktrace and debug/stack print - are those of the (error ...) form that raised it, in every embedding context (top level, non-tail, for-loop body, nested closure, body of a while loop that is rewritten into a function because it creates a closure)"],
+            "bounds": ["%d programs with two raise sites each (if/while/closure-creating while), %d contexts; inputs from the 20-entry table of boundary doubles" % (len(ERR_TEMPLATES), len(ERR_CONTEXTS))],
+            "stubs": ["GC allocation = malloc, collection disabled", "_setjmp returns 0", "memcpy/memmove slot-wise", "the expected line/column of each form is computed by the generator from the program text"],
+            "outside_claim": ["errors raised by C functions and type checks (leave through janet_panic)", "macro-generated forms whose position is the macro call's", "compile-time errors"],
+        }
+        hp = os.path.join(hdir, "err_%s.c" % name)
+        open(hp, "w").write(ERR_TEMPLATE % {"hdr": json.dumps(hdr, indent=1), "gen": gen, "nctx": len(ERR_CONTEXTS), "lines": carr(lines), "cols": carr(cols), "ref": ref})
+        harnesses.append(hp)
+        info["templates"].append("err_" + name)
+
 def prepare(tier, vf):
     gendir = os.path.join(vf.BUILD, "gen", vf.tree_hash(), "C02")
     hdir = os.path.join(gendir, "h")
@@ -96,10 +232,11 @@ def prepare(tier, vf):
                          "K2: the top-level result equals the C expression that states the template's meaning"],
             "bounds": ["%d templates (arithmetic, if/cond/case, var+set, let, for/while+break with concrete trip counts, destructuring, and/or, fn call, optional and variadic parameters, tail vs non-tail calls, closures over mutable variables, quasiquote); inputs: each of a b c ranges over a 20-entry table of boundary doubles chosen by the solver (8000 combinations, decided symbolically)" % len(TEMPLATES)],
             "stubs": ["GC allocation = malloc, collection disabled", "janet_panic family = failed obligation (no template may raise on numbers)", "_setjmp returns 0", "memcpy/memmove word-wise"],
-            "outside_claim": ["programs outside the template family", "macro expansion and special-form compilation on symbolic programs", "compile-time errors, source positions of errors (K5 not built)", "non-number inputs"],
+            "outside_claim": ["programs outside the template family", "macro expansion and special-form compilation on symbolic programs", "compile-time errors", "non-number inputs"],
         }
         hp = os.path.join(hdir, "tpl_%s.c" % name)
         open(hp, "w").write(TEMPLATE % {"hdr": json.dumps(hdr, indent=1), "gen": gen, "hasref": 1 if ref else 0, "ref": ref or "0"})
         harnesses.append(hp)
         info["templates"].append(name + ": " + expr)
+    prepare_err(tier, vf, gendir, hdir, harnesses, info)
     return {"harnesses": harnesses, "info": info}
